@@ -16,6 +16,7 @@ equal the current text token for token), so a wrong placement can only lead to e
 import difflib
 
 from . import erase as E
+from . import lex
 
 
 class MergeConflict(Exception):
@@ -67,7 +68,91 @@ def _align(base, cur, coarse=False):
                 continue
             for q in range(size):
                 m[p + a + q] = p + b + q
+        _slide(base, cur, m, BOUND)
     return m
+
+
+def _best_shift(seq, a, b, lo, hi, BOUND):
+    """run seq[a:b] can be slid left while seq[a-1]==seq[b-1] and right while seq[a]==seq[b] (same resulting text);
+    lo/hi: how far the neighbours allow.  -> the smallest |shift| after which the run starts right after a boundary, or 0"""
+    if a > 0 and seq[a - 1] in BOUND:
+        return 0
+    left = 0
+    while left < lo and a - left - 1 >= 0 and seq[a - left - 1] == seq[b - left - 1]:
+        left += 1
+    right = 0
+    while right < hi and b + right < len(seq) and seq[a + right] == seq[b + right]:
+        right += 1
+    for d in range(1, max(left, right) + 1):
+        if d <= right and seq[a + d - 1] in BOUND:
+            return d
+        if d <= left and a - d - 1 >= 0 and seq[a - d - 1] in BOUND:
+            return -d
+    return 0
+
+
+def _slide(base, cur, m, BOUND):
+    """difflib may align a deleted / inserted statement shifted by a few repeated tokens (`) ;`): slide every pure deletion and
+    pure insertion until it starts right after a statement boundary (the resulting texts are identical)."""
+    n, k = len(base), len(cur)
+    # pure deletions: base[a:b] unmatched, neighbours matched to adjacent cur tokens
+    a = 0
+    while a < n:
+        if m[a] is not None:
+            a += 1
+            continue
+        b = a
+        while b < n and m[b] is None:
+            b += 1
+        if a > 0 and b < n and m[a - 1] is not None and m[b] == m[a - 1] + 1:
+            lo = 0
+            while a - lo - 1 >= 0 and m[a - lo - 1] is not None and m[a - lo - 1] == m[a - 1] - lo:
+                lo += 1
+            hi = 0
+            while b + hi < n and m[b + hi] is not None and m[b + hi] == m[b] + hi:
+                hi += 1
+            d = _best_shift(base, a, b, lo, hi, BOUND)
+            if d > 0:
+                for t in range(d):
+                    m[a + t] = m[b + t]
+                for t in range(d):
+                    m[b + t] = None
+                b += d
+            elif d < 0:
+                for t in range(1, -d + 1):
+                    m[b - t] = m[a - t]
+                for t in range(1, -d + 1):
+                    m[a - t] = None
+        a = b
+    # pure insertions: cur[c:d] unmatched, neighbours matched to adjacent base tokens
+    inv = {}
+    for i, c in enumerate(m):
+        if c is not None:
+            inv[c] = i
+    c = 0
+    while c < k:
+        if c in inv:
+            c += 1
+            continue
+        e = c
+        while e < k and e not in inv:
+            e += 1
+        if c > 0 and e < k and (c - 1) in inv and inv[e] == inv[c - 1] + 1:
+            lo = 0
+            while c - lo - 1 >= 0 and (c - lo - 1) in inv and inv[c - lo - 1] == inv[c - 1] - lo:
+                lo += 1
+            hi = 0
+            while e + hi < k and (e + hi) in inv and inv[e + hi] == inv[e] + hi:
+                hi += 1
+            d = _best_shift(cur, c, e, lo, hi, BOUND)
+            if d > 0:
+                for t in range(d):
+                    m[inv[e + t]] = c + t
+                e += d
+            elif d < 0:
+                for t in range(1, -d + 1):
+                    m[inv[c - t]] = e - t
+        c = e
 
 
 def merge3(base, ann, cur, dropped=None, coarse=False):
@@ -154,3 +239,101 @@ def merge3(base, ann, cur, dropped=None, coarse=False):
         for g, run in sorted(after.get(c, [])):
             out.extend(run)
     return out
+
+
+# ---------------------------------------------------------------------------------------------
+# ghost-argument completion: calls that moved or were added by a change carry no ghost arguments.
+# The annotated template tells which callee takes which trailing `Tracked(..)` / `Ghost(..)` arguments;
+# they are appended to every call of that callee that has none.  Ghost arguments are erased again by
+# the erasure check, so this never alters the executable text that is compared with /repo.
+def _calls(toks):
+    """yield (name_index, open_index, close_index) for every `name (` ... `)` call or method call"""
+    for i in range(1, len(toks) - 1):
+        if toks[i + 1] == "(" and (toks[i][0].isalpha() or toks[i][0] == "_") and toks[i] not in ("if", "while", "match", "for", "fn", "return", "in", "as", "Some", "Ok", "Err", "Tracked", "Ghost", "assert", "assume", "forall", "exists", "choose", "old", "final"):
+            if toks[i - 1] in ("fn", "!"):
+                continue
+            try:
+                c = lex.match_close(toks, i + 1)
+            except Exception:
+                continue
+            yield i, i + 1, c
+
+
+def _split_args(toks, o, c):
+    args, cur, k = [], [], o + 1
+    while k < c:
+        t = toks[k]
+        if t in lex.OPEN:
+            e = lex.match_close(toks, k)
+            cur.extend(toks[k:e + 1])
+            k = e + 1
+            continue
+        if t == ",":
+            args.append(cur)
+            cur = []
+        else:
+            cur.append(t)
+        k += 1
+    if cur:
+        args.append(cur)
+    return args
+
+
+def _key(toks, i):
+    """callee key: receiver identifier (if a method call on a plain field/variable) + name"""
+    if toks[i - 1] == "." and i >= 2 and (toks[i - 2][0].isalpha() or toks[i - 2][0] == "_"):
+        return (toks[i - 2], toks[i])
+    if toks[i - 1] == ".":
+        return ("", toks[i])
+    if toks[i - 1] == "::" and i >= 2:
+        return (toks[i - 2] + "::", toks[i])
+    return (None, toks[i])
+
+
+def ghost_arg_table(ann):
+    table, bad = {}, set()
+    for i, o, c in _calls(ann):
+        args = _split_args(ann, o, c)
+        g = [a for a in args if a and a[0] in ("Tracked", "Ghost")]
+        n_exec = len(args) - len(g)
+        for key in (_key(ann, i), ("*", ann[i])):
+            k = key + (n_exec,)
+            if k in table and table[k] != g:
+                bad.add(k)
+            table.setdefault(k, g)
+    for k in bad:
+        table.pop(k, None)
+    return {k: v for k, v in table.items() if v}
+
+
+def complete_ghost_args(ann, merged):
+    table = ghost_arg_table(ann)
+    if not table:
+        return merged, 0
+    edits = []
+    for i, o, c in _calls(merged):
+        args = _split_args(merged, o, c)
+        if any(a and a[0] in ("Tracked", "Ghost") for a in args):
+            continue
+        g = table.get(_key(merged, i) + (len(args),)) or table.get(("*", merged[i], len(args)))
+        if not g:
+            continue
+        trailing = merged[c - 1] == ","
+        ins = []
+        for n, a in enumerate(g):
+            if n or (args and not trailing):
+                ins.append(",")
+            ins += a
+        if trailing:
+            ins.append(",")
+        edits.append((c, ins))
+    if not edits:
+        return merged, 0
+    edits.sort()
+    out, prev = [], 0
+    for at, ins in edits:
+        out.extend(merged[prev:at])
+        out.extend(ins)
+        prev = at
+    out.extend(merged[prev:])
+    return out, len(edits)
